@@ -57,7 +57,7 @@ int main (void)
     a.vals = (uint64_t *) calloc ((size_t) P * a.count + 1, sizeof (uint64_t));
     { size_t k = 0; for (char *p = strtok (line, " \n"); p && k < (size_t) P * a.count; p = strtok (NULL, " \n")) a.vals[k++] = strtoull (p, NULL, 16); }
     a.out = (unsigned char **) calloc ((size_t) P, sizeof (unsigned char *));
-    int mem0 = sc_memory_status (-1);
+    int mem0 = (sc_memory_status (-1) + sc_memory_status (sc_package_id));
     simmpi_opts o; simmpi_report rep;
     simmpi_opts_default (&o);
     o.nranks = P; o.seed = seed; o.adversary = adv; o.trace_path = tpath;
@@ -74,7 +74,7 @@ int main (void)
     FILE *f = fopen (tpath, "r");
     if (f) { char buf[65536]; size_t k; while ((k = fread (buf, 1, sizeof buf, f)) > 0) fwrite (buf, 1, k, stdout); fclose (f); }
     printf ("TRACE-END\n");
-    printf ("END %d mem=%d\n", run, sc_memory_status (-1) - mem0);
+    printf ("END %d mem=%d\n", run, (sc_memory_status (-1) + sc_memory_status (sc_package_id)) - mem0);
     simmpi_report_free (&rep);
     free (a.out); free (a.vals);
     ++run;
